@@ -34,6 +34,9 @@ def diff(a, b):
             out.append((name, f"first_match_alternation {a[name]['flag']} -> {b[name]['flag']}"))
         elif a[name]["digest"] != b[name]["digest"]:
             for (s, r0, e0), (_, r1, e1) in zip(a[name]["results"], b[name]["results"]):
+                if r0 != r1 and name == "__process__":
+                    out.append((name, f"process-wide setting {s} {r0} -> {r1} (decides e.g. which inputs end in RecursionError for every grammar)"))
+                    break
                 if r0 != r1:
                     out.append((name, f"parse({s!r}) {r0[:80]!r} -> {r1[:80]!r}"))
                     break
@@ -123,7 +126,7 @@ def run(ctx):
     for j, r in zip(jobs, results):
         m, pre, post = j
         if not pre and not post:
-            rules += len(r)
+            rules += len(r) - 1
             continue
         evals += len(r) * nsent
         d = diff(alone[m], r)
@@ -145,7 +148,7 @@ def run(ctx):
         "distinct_nontrivial": rules,
         "rule": "for every bundled module M: a process importing M alone vs processes importing all other modules before M / after M "
                 "(thorough: also every single other module before/after, and random full orders); per rule: first_match_alternation and parse() of "
-                "derived + mutated sentences; distinct_nontrivial = number of bundled rules observed",
+                "derived + mutated sentences, plus process-wide interpreter / library settings (recursion limit, switch interval, ParseCache.max_cache_size, ...); distinct_nontrivial = number of bundled rules observed",
         "samples": [{"target": j[0], "pre": j[1][:3], "post": j[2][:3]} for j in jobs[:4]],
         "processes": len(jobs), "modules": len(mods), "top_level_alternations_checked_for_ownership": tops, "not_owned": len(notowned),
     })
